@@ -222,7 +222,7 @@ class ExprMixin:
         if n in w.specfns:
             return [(st, SpecFnRef(n))]
         if n in ("forall", "exists", "implies", "iff", "old", "ite", "distinct",
-                 "seq_eq", "set_eq", "subset", "fieldof", "setof", "unchanged", "keys", "keyidx", "store"):
+                 "seq_eq", "set_eq", "subset", "fieldof", "setof", "unchanged", "keys", "keyidx", "store", "append", "cat"):
             return [(st, SpecFnRef(n))]
         if n in w.str_consts:
             c = w.str_consts[n]
